@@ -37,10 +37,10 @@ def _reexec_pinned():
 
 TIERS = {
     # property: {tier: runs}
-    "C14": {"quick": 3000, "thorough": 120000},
-    "C13": {"quick": 2500, "thorough": 100000},
-    "C15": {"quick": 4000, "thorough": 200000},
-    "C19": {"quick": 300, "thorough": 8000},
+    "C14": {"quick": 10000, "thorough": 400000},
+    "C13": {"quick": 5000, "thorough": 200000},
+    "C15": {"quick": 6000, "thorough": 300000},
+    "C19": {"quick": 1200, "thorough": 40000},
 }
 
 
